@@ -34,6 +34,9 @@ def run(ctx):
     r5_no_silent_none(ctx, dense + sparse)
     r6_split(ctx)
     r7_predicate_stage(ctx)
+    r8_decode_guards(ctx)
+    r9_headers_only_with_headers(ctx)
+    r10_filters_stateless(ctx)
 
 
 def r1_complete(ctx, dense, sparse):
@@ -230,7 +233,160 @@ def r7_predicate_stage(ctx):
         ctx.ob("C13.R7", ROWS, "DropRows.filter", w, "column dropping wraps every surviving row once", ok and unparse(w.elt.args[0]) == unparse(w.generators[0].target), stmt="wrap " + call_name(w.elt))
 
 
+def _guard_signature(t):
+    """(caught types, missing markers answered with None, re-raises otherwise) of a try statement"""
+    h = t.handlers[0]
+    types = sorted(unparse(e) for e in (h.type.elts if isinstance(h.type, ast.Tuple) else [h.type])) if h.type is not None else ["<anything>"]
+    markers = sorted({repr(c.value) for x in ast.walk(h) if isinstance(x, ast.Compare) and isinstance(x.ops[0], ast.In) for c in ast.walk(x.comparators[0]) if isinstance(c, ast.Constant)})
+    nones = any((isinstance(x, ast.Return) and isinstance(x.value, ast.Constant) and x.value.value is None) or
+                (isinstance(x, ast.Yield) and isinstance(x.value, ast.Constant) and x.value.value is None) or
+                (isinstance(x, ast.Assign) and isinstance(x.value, ast.Constant) and x.value.value is None) for x in ast.walk(h))
+    reraise = any(isinstance(x, ast.Raise) and x.exc is None for x in ast.walk(h))
+    return (tuple(types), tuple(markers), nones, reraise)
+
+
+def r8_decode_guards(ctx):
+    ctx.rule("C13.R8", "a cell decodes the same way by position, by name and by iteration: every try around an encoder application in the lazy row "
+                       "classes has the same handler (same exceptions caught, same missing markers answered with None, anything else re-raised)")
+    fam = []
+    for cname in ("LazyDense", "LazySparse"):
+        c = ctx.model.cls(ROWS, cname)
+        for name, fn in sorted(c.methods.items()):
+            for t in [x for x in ast.walk(fn) if isinstance(x, ast.Try) and len(x.handlers) == 1]:
+                applies = [k for st in t.body for k in ast.walk(st) if isinstance(k, ast.Call) and not isinstance(k.func, ast.Attribute) or
+                           (isinstance(k, ast.Call) and isinstance(k.func, ast.Call))]
+                applies = [k for k in applies if isinstance(k.func, (ast.Subscript, ast.Call)) or (isinstance(k.func, ast.Name) and len(k.func.id) <= 3)]
+                if applies:
+                    fam.append((cname, name, t, _guard_signature(t)))
+                    ctx.touch(ROWS, f"{cname}.{name}")
+    ctx.floor("C13.R8", "guarded encoder applications in LazyDense/LazySparse", len(fam), 4)
+    sigs = [s_ for *_, s_ in fam]
+    major = max(set(sigs), key=sigs.count) if sigs else None
+    for cname, name, t, sig in fam:
+        ctx.ob("C13.R8", ROWS, f"{cname}.{name}", t, "the decode guard equals the one used by the sibling access paths", sig == major,
+               detail={"this": sig, "siblings": major}, stmt=f"decode guard in {cname}.{name}")
+
+
+def _producers(ctx, fn, e, depth=0):
+    """abstract values an expression may take: 'none', 'empty' (literal empty container), 'built' (comprehension / call / other)"""
+    if depth > 4:
+        return {"built"}
+    if isinstance(e, ast.Constant) and e.value is None:
+        return {"none"}
+    if (isinstance(e, (ast.Dict, ast.List, ast.Tuple, ast.Set)) and not (e.keys if isinstance(e, ast.Dict) else e.elts)) or \
+            (isinstance(e, ast.Call) and call_name(e) in ("dict", "list", "tuple", "set") and not e.args and not e.keywords):
+        return {"empty"}
+    if isinstance(e, ast.IfExp):
+        return _producers(ctx, fn, e.body, depth + 1) | _producers(ctx, fn, e.orelse, depth + 1)
+    if isinstance(e, ast.Name):
+        out = set()
+        for st in ast.walk(fn):
+            if isinstance(st, ast.Assign):
+                for t in st.targets:
+                    if isinstance(t, ast.Name) and t.id == e.id:
+                        out |= _producers(ctx, fn, st.value, depth + 1)
+                    elif isinstance(t, ast.Tuple) and any(isinstance(x, ast.Name) and x.id == e.id for x in t.elts):
+                        i = [isinstance(x, ast.Name) and x.id == e.id for x in t.elts].index(True)
+                        v = st.value
+                        if isinstance(v, ast.Tuple) and len(v.elts) == len(t.elts):
+                            out |= _producers(ctx, fn, v.elts[i], depth + 1)
+                        elif isinstance(v, ast.Call) and call_name(v) is not None:
+                            callee = call_name(v).split(".")[-1]
+                            cands = [(q, f) for (r, q), f in ctx.model.functions.items() if r == ROWS and q.split(".")[-1] == callee]
+                            for q, f in cands:
+                                for r_ in walk_shallow(f):
+                                    if isinstance(r_, ast.Return) and isinstance(r_.value, ast.Tuple) and len(r_.value.elts) == len(t.elts):
+                                        out |= _producers(ctx, f, r_.value.elts[i], depth + 1)
+                            if not cands:
+                                out.add("built")
+                        else:
+                            out.add("built")
+        return out or {"built"}
+    return {"built"}
+
+
+def r9_headers_only_with_headers(ctx):
+    ctx.rule("C13.R9", "a wrapped row gets a `headers` attribute only when its table has headers: where the producer marks `no headers` with an empty "
+                       "container the consumer's guard must be a truthiness test, where it marks it with None an `is not None` test suffices "
+                       "(producer and consumer of the marker agree)")
+    n = 0
+    for c in ctx.model.subclasses(ctx.model.cls(PRIM, "Dense_")) + ctx.model.subclasses(ctx.model.cls(PRIM, "Sparse_")):
+        if c.rel != ROWS:
+            continue
+        init = c.methods.get("__init__")
+        if init is None:
+            continue
+        for st in [x for x in ast.walk(init) if isinstance(x, ast.Assign) and any(is_self_attr(t, "headers") for t in x.targets) and isinstance(x.value, ast.Name)]:
+            P = st.value.id
+            g = [(unparse(t), pol) for t, pol in guards_of(st, init)]
+            truthy = (P, True) in g
+            not_none = (f"{P} is not None", True) in g
+            params = [a.arg for a in init.args.args]
+            if P not in params:
+                continue
+            pos = params.index(P) - 1
+            sites = []
+            for (rel, qual), fn in sorted(ctx.model.functions.items()):
+                if rel != ROWS:
+                    continue
+                for k in walk_shallow(fn):
+                    if isinstance(k, ast.Call) and call_name(k) == c.name:
+                        a = arg_or_kw(k, pos, P)
+                        if a is not None:
+                            sites.append((qual, fn, k, a))
+            for qual, fn, k, a in sites:
+                n += 1
+                prod = _producers(ctx, fn, a)
+                ok = truthy or (not_none and "empty" not in prod) or (not g and not (prod & {"empty", "none"}))
+                ctx.touch(ROWS, qual)
+                ctx.ob("C13.R9", ROWS, qual, k, f"{c.name}'s headers guard rejects every `no headers` marker its producer can send", ok,
+                       detail={"guard": "truthiness" if truthy else "is not None" if not_none else [x for x, _ in g], "producer values": sorted(prod)})
+    ctx.floor("C13.R9", "construction sites of header-carrying row wrappers", n, 2)
+
+
+def r10_filters_stateless(ctx):
+    ctx.rule("C13.R10", "the row filters (HeadRows, EncodeRows, DropRows, LabelRows, EncodeCatRows) resolve everything per call from the table they are "
+                        "given: filter() and its helpers store nothing on the filter object (one filter object serves many tables)")
+    n = 0
+    base = ctx.model.cls(PRIM, "Filter")
+    for c in ctx.model.subclasses(base):
+        if c.rel != ROWS:
+            continue
+        for name, fn in sorted(c.methods.items()):
+            if name == "__init__":
+                continue
+            n += 1
+            ctx.touch(ROWS, f"{c.name}.{name}")
+            stores = []
+            for x in ast.walk(fn):
+                if isinstance(x, (ast.Assign, ast.AugAssign)):
+                    for t in (x.targets if isinstance(x, ast.Assign) else [x.target]):
+                        for tt in (t.elts if isinstance(t, (ast.Tuple, ast.List)) else [t]):
+                            b = tt
+                            while isinstance(b, ast.Subscript):
+                                b = b.value
+                            if is_self_attr(b):
+                                stores.append((b.attr, x.lineno))
+            ctx.ob("C13.R10", ROWS, f"{c.name}.{name}", fn, "the method stores nothing on the filter object", not stores, detail={"stores": stores}, stmt=f"{c.name}.{name} stateless")
+    ctx.floor("C13.R10", "row filter methods", n, 6)
+
+
+def _empty_marker(tree):
+    from ..mutate import find_def
+    f = find_def(tree, "DropRows.make_drop_row_args")
+    for x in ast.walk(f):
+        if isinstance(x, ast.Assign) and ast.unparse(x.targets[0]) == "external_headers" and isinstance(x.value, ast.Constant) and x.value.value is None:
+            x.value = ast.Dict(keys=[], values=[])
+    k = find_def(tree, "KeepDense.__init__")
+    for x in ast.walk(k):
+        if isinstance(x, ast.If) and ast.unparse(x.test) == "headers":
+            x.test = ast.parse("headers is not None", mode="eval").body
+
+
 CONTROLS = [
+    ("getitem catches ValueError only", ROWS, M.replace_stmt("LazyDense.__getitem__", lambda st: isinstance(st, ast.Try), "try:\n    return enc[key](val)\nexcept ValueError:\n    if val in ['?', '']: return None\n    raise"), "C13.R8"),
+    ("empty header map for headerless rows", ROWS, _empty_marker, "C13.R9"),
+    ("EncodeRows keeps the resolved encoders", ROWS, M.insert_before("EncodeRows.filter", lambda st: isinstance(st, ast.Return) and "EncodeDense" in ast.unparse(st), "self._encoders = enc"), "C13.R10"),
     ("len double counts", ROWS, M.replace_expr("LazySparse.__len__", "len(self._load_or_get().keys() | self._nsp)", "len(self._load_or_get()) + len(self._nsp)"), "C13.R2"),
     ("DropSparse without keys", ROWS, lambda tree: _remove_method(tree, "DropSparse", "keys"), "C13.R1"),
     ("EncodeSparse len ignores nsp", ROWS, M.replace_expr("EncodeSparse.__len__", "len(self._row.keys() | self._nsp)", "len(self._row)"), "C13.R2"),
